@@ -63,12 +63,15 @@ theorem seg_run {a : Bool} {h : List Nat} {r : List Ev} {f : Ph}
 
 /-- the invariant: every goroutine's remaining program obeys the discipline from its current
     phase (baton flag, set of mutexes it holds), and at most one goroutine has the baton -/
-structure Inv (s : St) : Prop where
+structure InvF (fin : Nat → Bool) (s : St) : Prop where
   ex : ∃ H : Nat → List Nat,
       (∀ g m, m ∈ H g ↔ s.holder m = some g) ∧ (∀ g, (H g).Nodup) ∧
-      (∀ g, seg (s.act g, H g) (s.prog g) = some (g == 0, []))
+      (∀ g, seg (s.act g, H g) (s.prog g) = some (fin g, []))
   baton : ∀ g h, s.act g = true → s.act h = true → g = h
   some_active : ∃ g, s.act g = true
+
+/-- the invariant for static families: the main goroutine ends with the baton, the others without -/
+abbrev Inv (s : St) : Prop := InvF (fun g => g == 0) s
 
 theorem inv_init {fam : Nat → List Ev} (hd : Disc fam) : Inv (initSt fam) := by
   refine ⟨⟨fun _ => [], ?_, ?_, ?_⟩, ?_, ?_⟩
@@ -83,9 +86,9 @@ theorem inv_init {fam : Nat → List Ev} (hd : Disc fam) : Inv (initSt fam) := b
   · exact ⟨0, by simp [initSt]⟩
 
 
-theorem inv_lock {s : St} {g m : Nat} {r : List Ev} (hI : Inv s) (hp : s.prog g = .lock m :: r)
+theorem inv_lock {fin : Nat → Bool} {s : St} {g m : Nat} {r : List Ev} (hI : InvF fin s) (hp : s.prog g = .lock m :: r)
     (hfree : s.holder m = none) :
-    Inv { s with prog := upd s.prog g r, holder := upd s.holder m (some g) } := by
+    InvF fin { s with prog := upd s.prog g r, holder := upd s.holder m (some g) } := by
   obtain ⟨⟨H, hH, hnd, hseg⟩, hb, hsa⟩ := hI
   have hs := hseg g
   rw [hp] at hs
@@ -111,8 +114,8 @@ theorem inv_lock {s : St} {g m : Nat} {r : List Ev} (hI : Inv s) (hp : s.prog g 
     · subst hg; simpa using hs'
     · simpa [hg] using hseg g'
 
-theorem inv_unlock {s : St} {g m : Nat} {r : List Ev} (hI : Inv s) (hp : s.prog g = .unlock m :: r) :
-    Inv { s with prog := upd s.prog g r, holder := upd s.holder m none } := by
+theorem inv_unlock {fin : Nat → Bool} {s : St} {g m : Nat} {r : List Ev} (hI : InvF fin s) (hp : s.prog g = .unlock m :: r) :
+    InvF fin { s with prog := upd s.prog g r, holder := upd s.holder m none } := by
   obtain ⟨⟨H, hH, hnd, hseg⟩, hb, hsa⟩ := hI
   have hs := hseg g
   rw [hp] at hs
@@ -140,9 +143,9 @@ theorem inv_unlock {s : St} {g m : Nat} {r : List Ev} (hI : Inv s) (hp : s.prog 
     · subst hg; simpa using hs'
     · simpa [hg] using hseg g'
 
-theorem inv_local {s : St} {g : Nat} {e : Ev} {r : List Ev} (hI : Inv s) (hp : s.prog g = e :: r)
+theorem inv_local {fin : Nat → Bool} {s : St} {g : Nat} {e : Ev} {r : List Ev} (hI : InvF fin s) (hp : s.prog g = e :: r)
     (h1 : ∀ m, e ≠ .lock m) (h2 : ∀ m, e ≠ .unlock m) (h3 : ∀ c, e ≠ .send c) (h4 : ∀ c, e ≠ .recv c) :
-    Inv { s with prog := upd s.prog g r } := by
+    InvF fin { s with prog := upd s.prog g r } := by
   obtain ⟨⟨H, hH, hnd, hseg⟩, hb, hsa⟩ := hI
   have hs := hseg g
   rw [hp] at hs
@@ -153,9 +156,9 @@ theorem inv_local {s : St} {g : Nat} {e : Ev} {r : List Ev} (hI : Inv s) (hp : s
   · subst hg; simpa using hs'
   · simpa [hg] using hseg g'
 
-theorem inv_sync {s : St} {g h c : Nat} {rg rh : List Ev} (hI : Inv s) (hgh : g ≠ h)
+theorem inv_sync {fin : Nat → Bool} {s : St} {g h c : Nat} {rg rh : List Ev} (hI : InvF fin s) (hgh : g ≠ h)
     (hpg : s.prog g = .send c :: rg) (hph : s.prog h = .recv c :: rh) :
-    Inv { s with prog := upd (upd s.prog g rg) h rh, act := upd (upd s.act g false) h true } := by
+    InvF fin { s with prog := upd (upd s.prog g rg) h rh, act := upd (upd s.act g false) h true } := by
   obtain ⟨⟨H, hH, hnd, hseg⟩, hb, hsa⟩ := hI
   have hsg := hseg g
   rw [hpg] at hsg
@@ -181,7 +184,7 @@ theorem inv_sync {s : St} {g h c : Nat} {rg rh : List Ev} (hI : Inv s) (hgh : g 
           exact absurd (hb x g hx hag) h2
     rw [key a ha, key b hb']
 
-theorem inv_fire {s s' : St} {a : Act} (hI : Inv s) (hf : fire s a = some s') : Inv s' := by
+theorem inv_fire {fin : Nat → Bool} {s s' : St} {a : Act} (hI : InvF fin s) (hf : fire s a = some s') : InvF fin s' := by
   cases a with
   | one g =>
     simp only [fire] at hf
@@ -226,7 +229,7 @@ theorem inv_reach {fam : Nat → List Ev} (hd : Disc fam) {s : St} (hr : Reach f
 
 
 /-- a goroutine about to touch shared state holds the baton -/
-theorem atTouch_act {s : St} (hI : Inv s) {g : Nat} (ht : atTouch s g = true) : s.act g = true := by
+theorem atTouch_act {fin : Nat → Bool} {s : St} (hI : InvF fin s) {g : Nat} (ht : atTouch s g = true) : s.act g = true := by
   obtain ⟨⟨H, _, _, hseg⟩, _, _⟩ := hI
   have hs := hseg g
   unfold atTouch at ht
@@ -237,14 +240,14 @@ theorem atTouch_act {s : St} (hI : Inv s) {g : Nat} (ht : atTouch s g = true) : 
     exact (seg_local (by intros; simp) (by intros; simp) (by intros; simp) (by intros; simp) hs).1
   · cases ht
 
-theorem busy_act {s : St} (hI : Inv s) {g : Nat} (hb : busy s g = true) : s.act g = true := by
+theorem busy_act {fin : Nat → Bool} {s : St} (hI : InvF fin s) {g : Nat} (hb : busy s g = true) : s.act g = true := by
   unfold busy at hb
   cases ha : s.act g with
   | true => rfl
   | false => rw [ha] at hb; simp at hb; exact absurd (atTouch_act hI hb) (by simp [ha])
 
 /-- whoever holds a mutex another goroutine is waiting for can take a step (it is unlocking) -/
-theorem holder_can_step {s : St} (hI : Inv s) {g g' m : Nat} {r : List Ev}
+theorem holder_can_step {fin : Nat → Bool} {s : St} (hI : InvF fin s) {g g' m : Nat} {r : List Ev}
     (hp : s.prog g = .lock m :: r) (hh : s.holder m = some g') : ∃ s', fire s (.one g') = some s' := by
   obtain ⟨⟨H, hH, hnd, hseg⟩, hb, hsa⟩ := hI
   have hs := hseg g
